@@ -3,7 +3,7 @@
    Statements only; every proof is [exact] of a lemma in Proofs/Net_proofs.v.
    Model: Model/Net.v (Network.subscribe/unsubscribe/notify/__setitem__/__delitem__/send_message/
    send_periodic, PeriodicMessageTask, MessageListener, NodeScanner, RemoteNode/LocalNode
-   associate_network/remove_network); reference: Model/RefNet.v (total multimap, predefined
+   associate_network/remove_network, RemoteNode.add_sdo with any number of additional SDO channels); reference: Model/RefNet.v (total multimap, predefined
    connection set, arithmetic scanner); table: Gen/NetTables.v (NodeScanner.SERVICES, LSS_RX_COBID)
    regenerated from /repo on every run. *)
 From Coq Require Import ZArith List Bool.
@@ -11,8 +11,8 @@ From CV Require Import Base.Val Base.Tys Gen.NetTables Gen.Src Model.Net Model.R
 Import ListNotations.
 Open Scope Z_scope.
 
-(* For EVERY operation list (subscribe, unsubscribe one / all, node add / replace / remove, notify,
-   listener frames, scanner reset) started from a fresh Network: the deliveries of every step are
+(* For EVERY operation list (subscribe, unsubscribe one / all, node add / replace / remove, add_sdo
+   on any node object at any time, notify, listener frames, scanner reset) started from a fresh Network: the deliveries of every step are
    those of the reference multimap run on the same list; the subscribers dict stands for the
    reference multimap; no reference list has a duplicate (so: exactly the subscribed callbacks,
    once each, in subscription order - the reference appends on subscription and deletes on
@@ -47,8 +47,8 @@ Theorem C10_unregistered_not_subscribed : forall ops old,
   forall c k, ~ In (HNode old k) (abs (subs s) c).
 Proof. exact unregistered_not_subscribed. Qed.
 
-(* after a remove / replace of [old] that did not raise, no callback of [old] (SDO, heartbeat,
-   EMCY, NMT) is invoked by any continuation that does not add the very same object again *)
+(* after a remove / replace of [old] that did not raise, no callback of [old] (SDO of the default
+   and of every added channel, heartbeat, EMCY, NMT) is invoked by any continuation that does not add the very same object again *)
 Theorem C10_removed_node_silent : forall ops1 old o ops2,
   let s := fst (run_ops ops1 init_net) in
   lookup_node (o_nid old) (nodes s) = Some old ->
@@ -120,6 +120,27 @@ Example C10_nv_removed :
 Proof.
   vm_compute. repeat split; try reflexivity.
   - right. exists nv_l5. repeat split; try reflexivity. discriminate.
+  - repeat constructor; discriminate.
+Qed.
+
+(* the same with an additional SDO channel (add_sdo while on the network): the extra client saw
+   a frame on its tx id 0x5C5 before the replacement and sees none afterwards, nor after re-creating
+   channels on the removed object *)
+Definition nv_r5' : nobj := {| o_uid := 3; o_nid := 5; o_local := false |}.
+Example C10_nv_removed_extra_sdo :
+  let ops1 := [OAdd nv_r5; OAddSdo nv_r5 1605 1477; ONotify 1477 [96] 1] in
+  let s := fst (run_ops ops1 init_net) in
+  let ops2 := [ONotify 1477 [128] 2; ONotify 1413 [128] 3; OAddSdo nv_r5 1606 1478; ONotify 1478 [1] 4] in
+  lookup_node (o_nid nv_r5) (nodes s) = Some nv_r5 /\
+  removes_or_replaces (OAdd nv_r5') nv_r5 /\
+  res_ok (snd (step (OAdd nv_r5') s)) = true /\
+  Forall (fun o2 => o2 <> OAdd nv_r5) ops2 /\
+  map log_of (snd (run_ops ops1 init_net)) = [[]; []; [(HNode nv_r5 (KSdoExtra 1), 1477, [96], 1)]] /\
+  map log_of (snd (run_ops ops2 (fst (step (OAdd nv_r5') s))))
+    = [[]; [(HNode nv_r5' KSdoResp, 1413, [128], 3)]; []; []].
+Proof.
+  vm_compute. repeat split; try reflexivity.
+  - right. exists nv_r5'. repeat split; try reflexivity. discriminate.
   - repeat constructor; discriminate.
 Qed.
 
